@@ -324,7 +324,81 @@ fn holders_under_depth_limit(ctx: &mut Ctx) {
 	}
 }
 
+// ---------------------------------------------------------------------------------------------
+// A zero-sized element with drop glue: only counts can be kept (it cannot carry an id)
+// ---------------------------------------------------------------------------------------------
+
+thread_local! {
+	static ZST_MADE: std::cell::Cell<usize> = std::cell::Cell::new(0);
+	static ZST_DROPPED: std::cell::Cell<usize> = std::cell::Cell::new(0);
+}
+pub struct TrackedZst;
+impl Drop for TrackedZst {
+	fn drop(&mut self) {
+		ZST_DROPPED.with(|c| c.set(c.get() + 1));
+	}
+}
+impl Decode for TrackedZst {
+	fn decode<I: Input>(input: &mut I) -> Result<Self, Error> {
+		match input.read_byte()? {
+			0xff => Err("malformed element".into()),
+			0xfe => panic!("element decoder panics"),
+			_ => {
+				ZST_MADE.with(|c| c.set(c.get() + 1));
+				Ok(TrackedZst)
+			},
+		}
+	}
+}
+
+fn zst_case<T>(ctx: &mut Ctx, shape: &str, n: usize, k: usize, kind: Kind, prefix: &[u8], dec: impl Fn(&[u8]) -> Result<T, Error>) {
+	let bs = script(n, k, kind, prefix);
+	ZST_MADE.with(|c| c.set(0));
+	ZST_DROPPED.with(|c| c.set(0));
+	let r = catch_unwind(AssertUnwindSafe(|| dec(&bs)));
+	let made = ZST_MADE.with(|c| c.get());
+	let dropped_before = ZST_DROPPED.with(|c| c.get());
+	let ok = matches!(r, Ok(Ok(_)));
+	if ok && (dropped_before != 0 || made != n) {
+		ctx.oracle_fail("C10", format!("{} N={}: successful decode constructed {} and had already dropped {}", shape, n, made, dropped_before));
+	}
+	drop(r);
+	let dropped = ZST_DROPPED.with(|c| c.get());
+	if dropped != made {
+		ctx.oracle_fail("C10", format!("{} N={} failure at {} ({:?}): {} zero-sized elements constructed but {} dropped", shape, n, k, kind, made, dropped));
+	}
+	ctx.count("ledger:cases", 1);
+	ctx.count("ledger:zst-cases", 1);
+}
+
+macro_rules! zst_grid {
+	($ctx:expr, $shape:expr, $n:expr, $prefix:expr, $dec:expr) => {{
+		let n: usize = $n;
+		zst_case($ctx, $shape, n, n, Kind::None, $prefix, $dec);
+		for k in 0..n {
+			for kind in [Kind::Exhausted, Kind::Malformed, Kind::Panic] {
+				zst_case($ctx, $shape, n, k, kind, $prefix, $dec);
+			}
+		}
+	}};
+}
+
+fn zst_shapes(ctx: &mut Ctx) {
+	zst_grid!(ctx, "[TrackedZst; 5]", 5, &[], |bs: &[u8]| <[TrackedZst; 5]>::decode(&mut &bs[..]));
+	zst_grid!(ctx, "Box<[TrackedZst; 4]>", 4, &[], |bs: &[u8]| <Box<[TrackedZst; 4]>>::decode(&mut &bs[..]));
+	zst_grid!(ctx, "[[TrackedZst; 2]; 3]", 6, &[], |bs: &[u8]| <[[TrackedZst; 2]; 3]>::decode(&mut &bs[..]));
+	zst_grid!(ctx, "(TrackedZst, TrackedZst, TrackedZst)", 3, &[], |bs: &[u8]| <(TrackedZst, TrackedZst, TrackedZst)>::decode(&mut &bs[..]));
+	let len7 = parity_scale_codec::Compact(7u32).encode();
+	zst_grid!(ctx, "Vec<TrackedZst>", 7, &len7, |bs: &[u8]| <Vec<TrackedZst>>::decode(&mut &bs[..]));
+	zst_grid!(ctx, "VecDeque<TrackedZst>", 7, &len7, |bs: &[u8]| <VecDeque<TrackedZst>>::decode(&mut &bs[..]));
+	zst_grid!(ctx, "LinkedList<TrackedZst>", 7, &len7, |bs: &[u8]| <LinkedList<TrackedZst>>::decode(&mut &bs[..]));
+	let len3 = parity_scale_codec::Compact(3u32).encode();
+	zst_grid!(ctx, "Vec<[TrackedZst; 2]>", 6, &len3, |bs: &[u8]| <Vec<[TrackedZst; 2]>>::decode(&mut &bs[..]));
+	zst_grid!(ctx, "Rc<[TrackedZst; 3]>", 3, &[], |bs: &[u8]| <Rc<[TrackedZst; 3]>>::decode(&mut &bs[..]));
+}
+
 pub fn ledger_stream(ctx: &mut Ctx) {
+	zst_shapes(ctx);
 	arrays::<0>(ctx);
 	arrays::<1>(ctx);
 	arrays::<2>(ctx);
